@@ -33,7 +33,14 @@ ENGINES_UNUSED = [
 TEXT = dict(
     design_ref="DESIGN.md section 4, C02",
     technique="Coq invariant proof (extent tiling) over allocator model + extracted-model differential + invariant oracle on real layout",
-    text=("Proof (partial, see evidence for the theorem ledger): the extent invariant (page alignment, pairwise disjointness, exact tiling of [0, layout_len) by live regions / holes / pending holes / reservations, no adjacent holes, layout_len <= file_len, len <= reserved) as a Coq invariant of the executable allocator model for ALL histories, plus the reuse clause (a placement with an adequate hole does not grow the allocated area). The same invariant is evaluated as an oracle on the REAL layout after every step of generated histories, and the model's complete state is compared with the real one."),
+    text=("Proof: Props/C02.v (14 theorems, all full): the extent invariant Inv (page alignment, every address below layout_len "
+          "owned by exactly one live region / hole / pending hole / reservation and none above, no adjacent holes, layout_len <= "
+          "file_len, len <= reserved, index consistency) holds in the initial state and is preserved by EVERY step of the allocator "
+          "model with no side condition (C02_inv_step_strong), hence in every state of every history (C02_reachable_strong); "
+          "C02_regions_disjoint / C02_region_shape / C02_exact_cover spell out the property text; C02_reuse: a placement in a state "
+          "that has an adequate hole does not grow the allocated area. inv_b is a boolean checker proved EQUIVALENT to Inv "
+          "(C02_inv_b_spec); extracted, it is evaluated on every real allocator state the differential agreed on, and the harness "
+          "evaluates the extent predicate and the reuse clause on the real layout after every step."),
     note=("Trusted: Coq kernel; gen_consts.py; extraction + OCaml driver; harness. The allocator is modelled, not verified: "
           "the tie is differential agreement on a bounded sample of histories. Sequential semantics only (concurrency is C10)."),
 )
